@@ -63,7 +63,10 @@ type mapOp struct {
 type storeState struct {
 	mode     int8 // 0 none, 1 read, 2 write
 	sections int8
-	ops      []mapOp
+	// lookFirst: the earlier sections of this path only read (allowed for result-less writers)
+	lookFirst bool
+	wrote     bool // some section of this path has changed the store (or a store field)
+	ops       []mapOp
 	// range loop over a map: id, source, ok term, updates in this iteration, exhausted
 	rngLoop    string
 	rngSrc     *eng.Term
@@ -82,7 +85,7 @@ type storeState struct {
 
 func (s storeState) Key() string {
 	var sb strings.Builder
-	fmt.Fprintf(&sb, "%d,%d|", s.mode, s.sections)
+	fmt.Fprintf(&sb, "%d,%d,%v%v|", s.mode, s.sections, s.lookFirst, s.wrote)
 	for _, o := range s.ops {
 		fmt.Fprintf(&sb, "%s(%s,%s)@%s/%d;", o.kind, o.key.Key(), o.val.Key(), o.inLoop, o.underLock)
 	}
@@ -175,6 +178,7 @@ func (m *StoreMon) OnEvent(c *eng.Ctx, ms eng.MState, ev *eng.Event) eng.MState 
 		chk("C13.R1", "access", s.mode >= 1, what+" without holding the store's lock: concurrent writers race with it")
 	}
 	needWrite := func(what string) {
+		s.wrote = true
 		chk("C13.R1", "access", s.mode == 2, what+" without holding the write lock (mode "+modeName(s.mode)+"): readers can observe a partial update")
 	}
 	// the innermost loop the event happens in - in its own function or, when that function is a
@@ -210,7 +214,14 @@ func (m *StoreMon) OnEvent(c *eng.Ctx, ms eng.MState, ev *eng.Event) eng.MState 
 			}
 			chk("C13.R3", "lock", isOwn, "a mutex other than the store's own is taken: "+prettyArgs(ev.Args))
 			chk("C13.R4", "lock", s.mode == 0, "the store's lock is taken while already held (self-deadlock / nested section)")
-			chk("C13.R2", "lock", s.sections == 0 || m.Extra, "a second critical section is entered in one operation: the operation is no longer atomic (another goroutine can interleave between the sections)")
+			// a writer without results (Set, Delete, Clear, Merge) may look at the store under an earlier
+			// section first (a read-lock fast path): its effect is specified independently of the state,
+			// so the operation is its last section as long as the earlier ones changed nothing
+			lookFirst := s.sections >= 1 && len(s.ops) == 0 && !s.wrote && (m.Method == "Set" || m.Method == "Delete" || m.Method == "Clear" || m.Method == "Merge")
+			if lookFirst {
+				s.lookFirst = true
+			}
+			chk("C13.R2", "lock", s.sections == 0 || m.Extra || lookFirst, "a second critical section is entered in one operation: the operation is no longer atomic (another goroutine can interleave between the sections)")
 			chk("C13.R3", "lock", ev.Class != "trylock", "TryLock may fail and is not handled by the discipline")
 			if ev.Class == "rlock" {
 				s.mode = 1
@@ -287,7 +298,13 @@ func (m *StoreMon) OnEvent(c *eng.Ctx, ms eng.MState, ev *eng.Event) eng.MState 
 			}
 			s.ops = appendOp(s.ops, mapOp{kind: kind, val: ev.Val, underLock: s.mode})
 		} else if root := eng.DescribeAddr(ev.Addr); strings.HasPrefix(root, "param:"+m.Recv.S) {
-			chk("C13.R1", "access", false, "a field of the store other than its map is written: "+ev.Addr.Pretty())
+			if m.Extra {
+				// an additional method may keep state of its own in the store (a listener, a counter),
+				// under the write lock like everything else
+				chk("C13.R1", "access", s.mode == 2, "a field of the store is written without holding the write lock: "+ev.Addr.Pretty())
+			} else {
+				chk("C13.R1", "access", false, "a field of the store other than its map is written: "+ev.Addr.Pretty())
+			}
 		}
 		if m.isInternal(c, ev.Val) && ev.Addr != m.dataAddr() {
 			chk("C13.R5,C14.R4", "escape", false, "the store's internal map is stored into "+ev.Addr.Pretty())
@@ -430,7 +447,7 @@ func (m *StoreMon) OnEvent(c *eng.Ctx, ms eng.MState, ev *eng.Event) eng.MState 
 			if m.Extra {
 				return s
 			}
-			chk("C13.R2", "return", s.sections <= 1, "more than one critical section on this path")
+			chk("C13.R2", "return", s.sections <= 1 || s.lookFirst, "more than one critical section on this path")
 			m.checkSpec(c, s, ev)
 		}
 	}
@@ -527,6 +544,8 @@ func (m *StoreMon) checkSpec(c *eng.Ctx, s storeState, ev *eng.Event) {
 	case "Delete":
 		if len(muts) == 1 && muts[0].kind == "delete" && muts[0].key == param(1) && muts[0].inLoop == "" {
 			pass()
+		} else if noMut() && s.sections <= 1 && c.Eval(eng.LookupOk(M, param(1))) == eng.TriFalse {
+			pass() // the key was seen absent in the operation's only section: nothing to delete
 		} else {
 			fail("Delete(key) must delete exactly key on every path; this path does " + opsStr())
 		}
